@@ -1,7 +1,7 @@
 """Per-property check procedures (see DESIGN.md section 4)."""
 import json, os
 from check import (subsample, build_harness, model_check, gen_random, play, validate, judge, finish, sample_behaviours,
-                   count_distinct, log, Machinery, read_lines, validate_single, harness, flow_step, flow_record,
+                   count_distinct, log, Machinery, read_lines, validate_single, harness, flow_step, flow_record, pgserver_inductive,
                    flow_attribution)
 
 TB_CONN = ["TLC 1.8.0 (model checking and trace validation)",
@@ -240,6 +240,8 @@ def c16(cx):
     model_check(cx, "MC_C16_live", export=False, workers=4)
     if thorough:
         model_check(cx, "MC_C16", cfg="MC_C16_pinned.cfg", expect_violation="is violated", export=False)
+        # beyond TLC's population: an inductive invariant of the design for 4 callers x 4 connections (Apalache)
+        pgserver_inductive(cx)
     # schedules: every interleaving of the permissive (lock-free) scheduler model, replayed on real goroutines
     b = model_check(cx, "MC_C16", cfg="MC_C16_sched.cfg", consts=big)
     subsample(cx, b, 20000 if thorough else 1500)
@@ -253,7 +255,10 @@ def c16(cx):
                   "TLC checks on PgServer (one action per hook point of Close and of command admission): no double "
                   "close, WaitGroup counter never negative, Close returns only when no handler runs, no handler starts "
                   "after a Close returned (2 closers x 1-2 connections), and under fairness every Close returns and "
-                  "Serve returns nil (liveness, 2x2, no state constraint). Every interleaving of the lock-free scheduler "
+                  "Serve returns nil (liveness, 2x2, no state constraint); thorough: an inductive invariant of the design "
+                  "(PgServerInd: mutex holder, flag/channel, WaitGroup = closer goroutine + commands in flight, what a "
+                  "holder read is still true) is discharged by Apalache for 4 Close callers x 4 connections and implies the "
+                  "same safety properties. Every interleaving of the lock-free scheduler "
                   "model (a superset of what the code allows: Close calls and commands - delivered whole or in two parts "
                   "- released step by step) is replayed on real goroutines parked at the hook points; the real order of "
                   "releases, arrivals, Close returns/panics, listener close and Serve return is validated by TLC against "
